@@ -44,16 +44,16 @@ add("C07", "Hypothesis invariant test: precision-weighted sum of mu changes vs a
 add("C08", "Hypothesis corner-heavy generation over the widest stated domain (incl. a second call through the same model) + RuleBasedStateMachine league histories (ratings fed back, predictions and failing calls interleaved) + long-running service (one child process, one model, 9 000 / 70 000 generated calls) + atheris coverage-guided fuzz target with the same oracle",
     "Exploration: no exception and all numbers finite for rate and the three predicts on 2..8 teams x 1..16 players, sigma down to 0 (with tau), kappa down to 1e-12, scale 1e-3..1e3; libFuzzer campaign over the same structured domain.",
     "sigma=0 only with effective tau >= 1e-6 beta.")
-add("C09", "Hypothesis invariant + metamorphic tests (permutation, identical teams, single-member mu increment) on predict_win",
+add("C09", "Hypothesis invariant + metamorphic tests (permutation, identical teams, single-member mu increment) on predict_win, on single calls and on the recurring / mixed calls of a long-running service (one child process, one model, 9 000 / 70 000 generated calls)",
     "Exploration over generated team lists incl. identical and 1-ulp-apart teams; oracle = range, sum, symmetry, exact one-half, monotonicity with an 8-ulp floor.",
     "'Identical teams' = equal member lists in the same order.")
 add("C10", "Hypothesis invariant + metamorphic tests (permutation, gap widening, equalisation) on predict_draw",
     "Exploration over generated team lists, with 1v1 small-sigma games (where the two-team form touches 1) and large teams stressed.",
     "1e-12 range slack; equalised games that leave the mu range are excluded (counted).")
-add("C11", "Hypothesis invariant tests on predict_rank output (exact float comparisons) + sum-to-one with predict_draw",
+add("C11", "Hypothesis invariant tests on predict_rank output (exact float comparisons) + sum-to-one with predict_draw, on single calls and on the recurring / mixed calls of a long-running service (one child process, one model, 9 000 / 70 000 generated calls)",
     "Exploration over generated team lists with planted exact copies (probability ties) in adjacent/non-adjacent positions.",
     "none beyond finite inputs in the valid range.")
-add("C12", "Hypothesis-generated teams vs independent 50-digit mpmath evaluation of the stated closed forms (differential oracle)",
+add("C12", "Hypothesis-generated teams vs independent 50-digit mpmath evaluation of the stated closed forms (differential oracle), on single calls and on the recurring / mixed calls of a long-running service (one child process, one model, 9 000 / 70 000 generated calls)",
     "Exploration: every number of the three predict operations compared to 1e-9 absolute with the closed forms written from the statement.",
     "predict_rank uses n*beta^2 also for n=2; mpmath erfinv as inverse CDF.")
 add("C13", "Exhaustive fault enumeration (all sites x fault kinds of a malformed-argument grammar) inside Hypothesis-generated valid calls (also on models that have been through a failed call, and on lobbies with one rating object in two slots); atheris target injecting grammar-built objects",
